@@ -8,7 +8,14 @@ segmentation independence, and round trips `decode (encode m ++ rest) = (m, rest
 for LengthPrefixedBodyDecoder, ChunkedBodyDecoder (incl. ERR tail),
 ProtocolThreeDecoder (server and client side), the protocol-1/2 request state
 machine, `\\x01` tuples, bencoded argument lists and the conventional response
-handler.
+handler; readv offsets (`_deserialise_offsets(_serialise_offsets(l)) = l`, all lists);
+ConventionalRequestHandler (every conventional request -- call, body, readv, stream,
+stream cut short by an error -- reaches the request handler as args_received, one
+accept_body per part, post_body_error_received, end_received; exactly one response);
+the composed statements bytes-in-any-reads -> handler state for v3 requests and
+responses (`v3_request_roundtrip`, `v3_response_roundtrip_fixed/_partial`); and the
+protocol-2 client's parsing of `_send_response` output (marker, success/failed, tuple,
+length-prefixed body or chunked stream with failure; stops exactly at the end).
 
 T2 (this module): the REAL decoders are driven read by read and compared with
 the model after EVERY read (state name, bytes_left, drained body / chunks /
@@ -19,12 +26,36 @@ compared byte for byte with the model encoders.  A malformed stream (~10 %) is
 compared the same way (the models are literal on garbage too) except for
 inputs relying on Python's lenient int() syntax.  ConventionalResponseHandler is
 modelled in two variants (as found / with the proposed fix of finding F15); the
-variant implemented by the working tree is probed on every run.
+variant implemented by the working tree is probed on every run.  The real
+ConventionalRequestHandler (behind the real v3 decoder, with a recording request handler
+and responder) is compared with the model on conventional requests and on ~20 % other
+part sequences (handler state, or the first protocol error the handler raises PLUS the
+framing state at the end: an error raised by the handler must not stop the decoder from
+finding the end of the message); `_deserialise_offsets` on serialised and
+malformed texts; SmartClientRequestProtocolTwo over a pipe with short reads on responses
+written by the real server (and with a wrong marker / status line).
 
 Oracle (independent of the model): full real round trips, client encoder ->
 wire cut into arbitrary reads -> server decoder (and server -> client) for
 protocol 1, 2 and 3; args, body, readv offsets, streamed chunks, mid-stream
-errors and the bytes after the message must come out as they went in.
+errors and the bytes after the message must come out as they went in.  Two or three
+requests back to back on ONE connection go through the real server medium loop (serve /
+_build_protocol / _get_line / _serve_one_request / _push_back), for a socket medium whose
+reads are scripted (any segmentation, boundaries inside reads) and for the pipe medium
+with short reads: every request must be dispatched with its own args and body, and (v3) one
+response per request must be written.  The connections include v3 requests the server
+answers with an error while the client keeps sending -- a body / stream / readv for a verb
+that answered from its args, for a verb that raised, for an unknown verb -- followed by good
+requests: v3 messages are self-delimiting, the connection must stay usable.  Likewise every
+generated v3 message with valid framing that the real ConventionalRequestHandler rejects must
+leave the decoder finished with unused_data = the bytes after it.
+
+NEW, not yet triaged (the check exits 1 on /repo until the coordinator decides; repro
+and tested patch in /var/tmp/imp-C28C29/c29): family
+`v1-bodyless-request-with-buffered-followup-terminates-connection` -- one socket read
+delivers a protocol-1 request without body (e.g. `hello\n`) plus bytes of the next
+request; SmartMedium._push_back(b"") raises AssertionError because the buffer check
+precedes the empty-data check; the connection is terminated, the next request is lost.
 
 Mutants this check was built against (scratch worktree, each caught by the oracle
 with a concrete input and by T2; H* stayed clean):
@@ -45,6 +76,19 @@ with a concrete input and by T2; H* stayed clean):
   M10 ConventionalRequestHandler.bytes_part_received drops every body part after the first
   M11 LengthPrefixed: `if self.bytes_left != 0` -> `< -1` (exactly one trailer byte with the body)
   H1  `_state_accept_reading_body` rewritten with locals; H2 `find` -> `in` + `index`.
+Second round (on a worktree with the _push_back patch applied; all caught):
+  N1  ConventionalRequestHandler._error_received no longer calls post_body_error_received   oracle
+  N2  byte_part_received takes `E` for success (`expecting = "end"`)                         oracle
+  N3  _deserialise_offsets `continue` -> `break` on a blank line                             oracle
+  N4  SmartMedium._get_line drops the excess instead of pushing it back                      oracle (pipeline)
+  N5  socket medium pushes back `unused_data[1:]`                                            oracle (pipeline)
+  N6  v2 client: every status line but `failed` counts as success                            T2 (tie)
+  N7  v2 server writes `success` for a failed response                                       oracle
+  H3  `if line == b"": continue` / tuple-unpacking with parentheses in _deserialise_offsets: clean.
+Seeded change C29b (ProtocolThreeDecoder._state_accept_expecting_bytes: transition to
+expecting_message_part moved after the handler callback -- only wrong when the handler raises on
+a bytes part): plain VIOLATION for seeds 0..3 (corpus case `C29.n`-style verb + body, all 2-splits;
+also T2 and the pipeline oracle).
 """
 import io
 import struct
@@ -61,11 +105,17 @@ THEOREMS = [
     "resp_handler_roundtrip_fixed",
     "tuple_roundtrip", "tuple_empty_witness", "tuple_separator_witness",
     "req_feed_append", "req_roundtrip",
+    "offsets_roundtrip", "rq_handler_roundtrip", "rq_executed_body", "req_stream_error_executed_witness",
+    "v3_request_roundtrip", "v3_response_roundtrip_fixed", "v3_response_roundtrip_partial",
+    "v2_response_roundtrip",
 ]
 RULE = ("messages from a grammar (1-4 args, bodies 0-300 bytes (sometimes up to 70000) over an alphabet of "
         "the delimiter bytes, readv lists, streams of 0-4 chunks with optional failure, trailing bytes) "
         "encoded by the real encoder, cut into reads (whole, every 2-split for short messages, bytewise, "
-        "random k-splits incl. empty reads); a case is distinct by (kind, message, segmentation); "
+        "random k-splits incl. empty reads); conventional v3 requests and other part sequences for the "
+        "request handler; serialised / malformed readv offset texts; protocol-2 responses read by the real "
+        "client with short reads; 2-3 requests back to back through the real server medium loop; "
+        "a case is distinct by (kind, message, segmentation); "
         "non-trivial = more than one read or non-empty trailing bytes or a malformed stream")
 ASSUMPTIONS = [
     "length lines are strings of digits: Python int() also accepts whitespace, sign, '_' and '0x' — "
@@ -73,19 +123,25 @@ ASSUMPTIONS = [
     "protocol 1/2 argument tuples are non-empty and contain neither \\x01 nor \\n (wire-format limits, "
     "witness theorems tuple_empty_witness / tuple_separator_witness)",
     "every v3 part is shorter than 2**32 bytes (struct.pack('!L') raises otherwise)",
+    "the request-handler model stops at the first protocol error (the real decoder reports it and goes on "
+    "parsing); a body-taking verb answers in do_end(); a failed protocol-2 response carries no body",
     "bencode/bdecode of headers and argument structures is fastbencode (external); the model treats "
     "structure payloads as opaque bytes and proves the flat list-of-bytes case",
 ]
 TRUSTED = [
     "sockets, timeouts and OS buffering are not modelled; the client medium is SmartSimplePipesClientMedium "
     "over an in-memory pipe that returns short reads",
-    "request dispatch is replaced by two test verbs registered in request.request_handlers",
+    "request dispatch is replaced by two test verbs registered in request.request_handlers; under the real "
+    "ConventionalRequestHandler a recording request handler / responder stands in for SmartServerRequestHandler",
+    "the protocol-2 client model works on the whole byte stream: the segmentation of its header lines is the "
+    "medium's read_line (exercised by the oracle with short reads), that of the bodies is proved (LP / CK)",
 ]
 
 ALPHA = b"\n\n\x01\x00\xff :,_-+lexX" + b"doneENDERRchunked" + b"0123456789abcdefABCDEF"
 SAFE = bytes(c for c in ALPHA if c not in b"\n\x01")
 F15 = "v3-response-stream-error-before-first-chunk"
 F16 = "v3-request-stream-error-ignored"
+PUSHBACK = "v1-bodyless-request-with-buffered-followup-terminates-connection"
 
 
 # ---------------------------------------------------------------- generators
@@ -316,6 +372,134 @@ def run_v3resp(marker, segs):
         ("T" if state_name(d) == "reading_unused" else "F") + " " + hexb(d.unused_data)
 
 
+class RecReqHandler:
+    """stands in for SmartServerRequestHandler under the real ConventionalRequestHandler: records
+    the calls; `w`: the verb waits for a body (otherwise it answers in args_received)"""
+
+    def __init__(self, w):
+        self.w = w
+        self.calls = []
+        self.finished_reading = False
+        self.response = None
+
+    def headers_received(self, headers):
+        pass
+
+    def args_received(self, args):
+        from fastbencode import bencode
+        self.calls.append("A" + hexb(bencode(args)))
+        if not self.w:
+            self.finished_reading = True
+            self.response = "resp"
+
+    def accept_body(self, b):
+        self.calls.append("B" + hexb(b))
+
+    def post_body_error_received(self, error_args):
+        from fastbencode import bencode
+        self.calls.append("P" + hexb(bencode(error_args)))
+
+    def end_received(self):
+        self.calls.append("e")
+        self.finished_reading = True
+        self.response = "resp"
+
+
+class RecResponder:
+    def __init__(self):
+        self.response_sent = False
+        self.n = 0
+        self.errors = []
+
+    def send_response(self, response):
+        self.n += 1
+        self.response_sent = True
+
+    def send_error(self, exc):
+        self.errors.append(exc)
+        self.response_sent = True
+
+
+RQ_ERRORS = [("Unexpected message part: bytes(", "E:UnexpectedBytes"),
+             ("Unexpected message part: byte(", "E:UnexpectedByte"),
+             ("Non-success status byte", "E:BadStatusByte"),
+             ("Unexpected message part: structure(", "E:UnexpectedStructure"),
+             ("End of message received prematurely", "E:PrematureEnd"),
+             ("Bad message kind byte", "E:BadKind")]
+
+
+def run_v3req(w, segs):
+    """the real ConventionalRequestHandler behind the real ProtocolThreeDecoder (server side: the
+    medium has consumed the version marker); state after the whole input, or the first protocol error"""
+    from breezy.bzr.smart import message
+    rh, rs = RecReqHandler(w), RecResponder()
+    h = message.ConventionalRequestHandler(rh, rs)
+    first = []
+    orig = h.protocol_error
+
+    def protocol_error(exc):
+        if not first:
+            msg = str(exc)
+            first.append(next((k for pat, k in RQ_ERRORS if pat in msg), "E:Other:%s" % type(exc).__name__))
+        orig(exc)
+    h.protocol_error = protocol_error
+    d = _proto().ProtocolThreeDecoder(h, expect_version_marker=False)
+    for seg in segs:
+        try:
+            d.accept_bytes(seg)
+        except Exception as e:  # noqa
+            return "E:Crash:%s" % type(e).__name__, h, rh, rs, d
+    # an error raised by the handler does not stop the decoder (it must still find the end of the
+    # message); a framing error does
+    framing = " " + ("T" if state_name(d) == "reading_unused" else "F") + " " + hexb(d.unused_data)
+    if first:
+        return first[0] + ("" if first[0] in ("E:BadKind",) else framing), h, rh, rs, d
+    out = "/".join([h.expecting, "+".join(rh.calls) or "[]", "T" if rh.finished_reading else "F", str(rs.n)]) + framing
+    return out, h, rh, rs, d
+
+
+def run_offsets(text):
+    from breezy.bzr.smart import vfs
+    try:
+        offs = vfs.ReadvRequest(backing())._deserialise_offsets(text)
+    except ValueError:
+        return "E:ValueError"
+    return ",".join("%d:%d" % o for o in offs) or "[]"
+
+
+def run_v2resp(kind, data, rng, style):
+    """the real SmartClientRequestProtocolTwo over a pipe with short reads: status, tuple, body /
+    chunks, and the bytes it left unread"""
+    from dromedary import errors as terr
+    from breezy import errors
+    p = _proto()
+    m, _, pipe = client_medium(data, rng, style)
+    req = m.get_request()
+    req.finished_writing()
+    c = p.SmartClientRequestProtocolTwo(req)
+    c._last_verb = b"C29.n"
+    try:
+        try:
+            args = c.read_response_tuple(expect_body=kind != "n")
+            status = "ok"
+        except terr.ErrorFromSmartServer as e:
+            args, status = e.error_tuple, "failed"
+        body = "~"
+        if status == "ok" and kind == "b":
+            body = "b" + hexb(c.read_body_bytes())
+        elif status == "ok" and kind == "s":
+            body = "s" + (",".join(show_chunk(ch) for ch in c.read_streamed_body()) or "[]")
+    except errors.UnexpectedProtocolVersionMarker:
+        return "E:BadVersion"
+    except terr.SmartProtocolError as e:
+        return "E:BadStatus" if "bad protocol status" in str(e) else "E:Other:" + str(e)[:40]
+    except ValueError:
+        return "E:BadBody"
+    except ConnectionResetError:
+        return "E:Incomplete"
+    return "/".join([status, hlist(list(args)), body]) + " " + hexb((m._push_back_buffer or b"") + data[pipe.pos:])
+
+
 LOG = []
 _registered = False
 
@@ -344,6 +528,13 @@ def register_verbs():
             LOG.append(("nobody", args))
             return request.SuccessfulSmartServerResponse((b"ok",))
 
+    class Raises(request.SmartServerRequest):
+        def do(self, *args):
+            from breezy import errors
+            LOG.append(("raise", args))
+            raise errors.BzrError("C29.x always fails")
+
+    request.request_handlers.register(b"C29.x", Raises, "verif test verb")
     request.request_handlers.register(b"C29.b", WithBody, "verif test verb")
     request.request_handlers.register(b"C29.n", NoBody, "verif test verb")
     _registered = True
@@ -394,6 +585,9 @@ class ShortPipe:
         self.rng = rng
         self.style = style
         self.requests = []
+
+    def close(self):
+        pass
 
     def read(self, n):
         self.requests.append((n, len(self.data) - self.pos))
@@ -596,7 +790,105 @@ def do_req(ctx, b, w, args, body, rest, segs, bad=None):
     b.add(case, "req %s %s" % ("T" if w else "F", hseg(segs)), out)
 
 
+def do_v3req(ctx, b, w, hdr, parts, rest, segs, wellformed):
+    """the real ConventionalRequestHandler on a server-side v3 message; parts as in do_v3"""
+    case = dict(kind="v3req", w=w, hdr=hexb(hdr), parts=[[k, v if k == "o" else hexb(v)] for k, v in parts],
+                rest=hexb(rest), segs=[hexb(s) for s in segs], wellformed=wellformed)
+    out, h, rh, rs, d = run_v3req(w, segs)
+    if wellformed:
+        exp = []
+        after_e = False
+        for k, v in parts:
+            if k == "s":
+                exp.append(("P" if after_e else "A") + hexb(v))
+            elif k == "b":
+                exp.append("B" + hexb(v))
+            else:
+                after_e = True
+        exp.append("e")
+        if out.startswith("E:"):
+            ctx.violation(case, "server rejected a well-formed conventional request: %s" % out)
+        elif rh.calls != exp:
+            ctx.violation(case, "request handler received %r, sent %r" % (rh.calls[:8], exp[:8]))
+        elif rs.n != 1:
+            ctx.violation(case, "%d responses sent for one request" % rs.n)
+        elif state_name(d) != "reading_unused" or d.unused_data != rest:
+            ctx.violation(case, "bytes after v3 request: state %s, unused_data=%r, sent %r"
+                          % (state_name(d), d.unused_data, rest))
+    elif state_name(d) != "reading_unused" or d.unused_data != rest:
+        # the framing of every generated message is valid: whatever the request handler thinks of the
+        # parts (it answers with an error), the decoder must find the end of the message and keep the
+        # bytes after it for the next one
+        ctx.violation(case, "v3 message rejected by the request handler (%s): the decoder did not find its end / "
+                      "lost the bytes after it: state %s, unused_data=%r, sent %r"
+                      % (out.split(" ")[0], state_name(d), d.unused_data, rest))
+    ctx.case(case, nontrivial(segs, rest, not wellformed))
+    ctx.count("v3req:%s" % (out.split(" ")[0] if out.startswith("E:") else "ok"))
+    b.add(case, "v3req %s %s" % ("T" if w else "F", hseg(segs)), out)
+
+
+def do_offsets(ctx, b, text, offs):
+    case = dict(kind="dec.offsets", text=hexb(text), offs=None if offs is None else [list(o) for o in offs])
+    out = run_offsets(text)
+    if offs is not None and out != (",".join("%d:%d" % o for o in offs) or "[]"):
+        ctx.violation(case, "_deserialise_offsets(_serialise_offsets(%r)) = %s" % (offs, out))
+    ctx.case(case, offs is None or len(offs) > 1)
+    ctx.count("dec.offsets:%s" % ("bad" if offs is None else min(len(offs), 4)))
+    b.add(case, "dec.offsets %s" % hexb(text), out)
+
+
+def do_v2resp(ctx, b, rng, ok, args, body, stream, fail, rest, bad=None):
+    """protocol 2, server -> client: real encoder vs model encoder, real client parsing (short
+    reads) vs model, and the round trip itself"""
+    wire = enc_response(2, ok, args, body, stream, fail)
+    kind = "b" if body is not None else "s" if stream is not None else "n"
+    case = dict(kind="v2resp", ok=ok, args=[hexb(a) for a in args], body=None if body is None else hexb(body),
+                stream=None if stream is None else [hexb(c) for c in stream],
+                fail=None if fail is None else [hexb(a) for a in fail], rest=hexb(rest), bad=bad)
+    ctx.case(case, True)
+    b.add(dict(case, kind="enc.v2resp"),
+          "enc.v2resp %s %s %s %s %s" % ("T" if ok else "F", hlist(args), "~" if body is None else hexb(body),
+                                         "~" if stream is None else hlist(stream), "~" if fail is None else hlist(fail)),
+          hexb(wire))
+    data = wire + rest
+    if bad == "marker":
+        data = rng.choice([b"bzr response 3\n", b"bzr respons 2\n", b"\n", b"bzr request 2\n", b"bzr response 2 \n"]) + data[15:]
+    elif bad == "status":
+        line = rng.choice([b"maybe", b"succes", b"Failed", b"success ", b""])
+        data = data[:15] + line + data[data.index(b"\n", 15):]
+    style = rng.choice(["full", "one", "rand", "rand"])
+    case["style"] = style
+    out = run_v2resp(kind, data, rng, style)
+    if bad is None:
+        if ok:
+            want_body = "~" if kind == "n" else "b" + hexb(body) if kind == "b" else \
+                "s" + (",".join(["d" + hexb(c) for c in stream] + (["f" + "+".join(hexb(a) for a in fail)] if fail is not None else [])) or "[]")
+            want = "/".join(["ok", hlist(args), want_body]) + " " + hexb(rest)
+        else:
+            # a failed response is an error tuple; the client does not read on
+            want = "/".join(["failed", hlist(args), "~"]) + " " + hexb(data[len(enc_response(2, ok, args, None, None, None)):])
+        if out != want:
+            ctx.violation(case, "protocol-2 response arrived as %s, sent %s" % (out[:200], want[:200]))
+    ctx.count("v2resp:%s" % (out.split("/")[0] if not out.startswith("E:") else out))
+    b.add(case, "dec.v2resp %s %s" % (kind, hexb(data)), out)
+
+
 # ---------------------------------------------------------------- end-to-end oracles
+
+_fam_seen = {}
+
+
+def report(ctx, case, what, family=None):
+    """ctx.violation, but a classified family is reported with at most 25 concrete inputs per run (ctx
+    keeps the inputs of the first 200 violations only; an unclassified violation must not lose its
+    input to hundreds of instances of a known one)"""
+    if family is not None:
+        _fam_seen[family] = _fam_seen.get(family, 0) + 1
+        if _fam_seen[family] > 25:
+            ctx.count("more-instances:" + family)
+            return
+    ctx.violation(case, what, family)
+
 
 def oracle_request(ctx, rng, version, how, args, body, rest, style):
     """real client encoder -> reads -> real server stack; nothing of the model involved"""
@@ -631,8 +923,8 @@ def oracle_request(ctx, rng, version, how, args, body, rest, style):
     if how == "stream-fail":
         # the client aborts the request with an error part: the command must not see a complete body
         if ev:
-            ctx.violation(case, "request whose body stream was aborted by an error part (oE) was executed by the "
-                          "server as if complete, with body %r" % (ev[0][2],), F16 if version == 3 else None)
+            report(ctx, case, "request whose body stream was aborted by an error part (oE) was executed by the "
+                   "server as if complete, with body %r" % (ev[0][2],), F16 if version == 3 else None)
         elif chunks != list(body):
             ctx.violation(case, "stream chunks before the failure arrived as %r, sent %r" % (chunks, body))
     elif len(ev) != 1:
@@ -646,6 +938,134 @@ def oracle_request(ctx, rng, version, how, args, body, rest, style):
             ctx.violation(case, "stream chunks arrived as %r, sent %r" % (chunks, body))
     if sp.unused_data != rest:
         ctx.violation(case, "bytes after v%d request: unused_data=%r, sent %r" % (version, sp.unused_data, rest))
+
+
+def scripted_socket_medium(segs, out):
+    """SmartServerSocketStreamMedium whose socket reads are scripted: every _read_bytes returns the
+    next segment whatever was asked for (as a socket read of up to MAX_SOCKET_CHUNK does), b"" at
+    the end; what the protocol did not consume goes through _push_back to the next request"""
+    from breezy.bzr.smart import medium
+
+    class Scripted(medium.SmartServerSocketStreamMedium):
+        def __init__(self):
+            medium.SmartServerStreamMedium.__init__(self, backing(), "/", timeout=4.0)
+            self.segs = list(segs)
+            self.terminated = False
+            self._client_info = "<scripted>"
+
+        def _wait_for_bytes_with_timeout(self, timeout_seconds):
+            pass
+
+        def _read_bytes(self, desired_count):
+            return self.segs.pop(0) if self.segs else b""
+
+        def _write_out(self, data):
+            out.append(data)
+
+        def _disconnect_client(self):
+            pass
+
+        def terminate_due_to_error(self):
+            self.terminated = True
+            self.finished = True
+    return Scripted()
+
+
+def oracle_pipeline(ctx, rng, reqs, style, which):
+    """several requests back to back on ONE connection through the real server medium loop
+    (serve / _build_protocol / _serve_one_request / _push_back): each must be dispatched with its own
+    args and body, whatever the reads look like.  reqs: list of (version, how, args, body)"""
+    from breezy.bzr.smart import medium
+    register_verbs()
+    wires = [enc_request(v, how, args, body, headers={b"k": b"v"} if v == 3 else None, rng=rng)
+             for v, how, args, body in reqs]
+    data = b"".join(wires)
+    case = dict(kind="e2e-pipeline", medium=which, style=style,
+                reqs=[dict(version=v, how=how, args=[hexb(a) for a in args],
+                           body=[list(x) if isinstance(x, tuple) else hexb(x) for x in body] if isinstance(body, list)
+                           else (None if body is None else hexb(body))) for v, how, args, body in reqs])
+    del LOG[:]
+    out = []
+    if which == "socket":
+        segs = [s_ for s_ in cut(rng, data, style) if s_]
+        # make sure one read spans the boundary between two requests now and then
+        case["segs"] = [hexb(s_) for s_ in segs]
+        m = scripted_socket_medium(segs, out)
+    else:
+        pipe = ShortPipe(data, rng, "one" if style == "bytes" else "full" if style == "whole" else "rand")
+        class KeepOpen(io.BytesIO):
+            def close(self):
+                pass
+        outf = KeepOpen()
+        m = medium.SmartServerPipeStreamMedium(pipe, outf, backing(), timeout=4.0)
+        m.terminated = False
+        m.terminate_due_to_error = lambda: (setattr(m, "terminated", True), setattr(m, "finished", True))
+    crashed = None
+    import contextlib
+    try:
+        with contextlib.redirect_stderr(io.StringIO()):
+            m.serve()
+    except Exception as e:  # noqa -- the real serve loop raised on well-formed requests
+        crashed = "%s: %s" % (type(e).__name__, str(e)[:160])
+    ctx.case(case, True)
+    ctx.count("e2e-pipeline:%s:n=%d" % (which, len(reqs)))
+    def exp_upto(n):
+        return [e for k, e in exp_idx if k < n]
+
+    exp = []
+    exp_idx = []
+    for ri, (v, how, args, body) in enumerate(reqs):
+        # what the verb must see: C29.n / C29.x answer from their args (a body sent all the same is a
+        # protocol error answered with an error response, v3 only); an unknown verb sees nothing
+        if args[0] == b"C29.n":
+            exp.append(("nobody", tuple(args[1:])))
+        elif args[0] == b"C29.x":
+            exp.append(("raise", tuple(args[1:])))
+        elif args[0] == b"C29.b":
+            eb = b"" if how == "call" else b"\n".join(b"%d,%d" % t for t in body) if how == "readv" \
+                else b"".join(body) if how == "stream" else body
+            exp.append(("body", tuple(args[1:]), eb))
+        else:
+            continue
+        exp_idx.append((ri, exp[-1]))
+    got = [e for e in LOG if e[0] in ("body", "nobody", "raise")]
+    nresp = None
+    if all(v == 3 for v, _, _, _ in reqs):
+        nresp = b"".join(out if which == "socket" else [outf.getvalue()]).count(_proto().MESSAGE_VERSION_THREE)
+    if crashed is not None:
+        ctx.violation(case, "server medium loop raised %s on %d well-formed back-to-back requests (dispatched %d)"
+                      % (crashed, len(reqs), len(got)))
+    elif getattr(m, "terminated", False):
+        # family (new, untriaged): the request that was dispatched last is a protocol-1 request without
+        # a body -- complete inside the line _build_protocol reads -- and the socket read that delivered
+        # its final newline also delivered bytes of the next request: SmartMedium._push_back(b"") then
+        # trips over the excess _get_line pushed back (the assertion precedes the empty-data check)
+        fam = None
+        if which == "socket":
+            # j: the first protocol-1 request without body, not the last one, whose final newline
+            # arrives in a read that carries more bytes
+            j = None
+            for k in range(len(reqs) - 1):
+                if reqs[k][0] == 1 and reqs[k][1] == "call":
+                    end = sum(len(x) for x in wires[:k + 1])
+                    pos = 0
+                    for s_ in segs:
+                        if pos < end <= pos + len(s_) and pos + len(s_) > end:
+                            j = k
+                        pos += len(s_)
+                    if j is not None:
+                        break
+            # ... and everything up to and including it was dispatched correctly, nothing after it
+            if j is not None and got == exp_upto(j + 1):
+                fam = PUSHBACK
+        report(ctx, case, "server medium terminated the connection on %d well-formed back-to-back requests "
+               "(dispatched %d)" % (len(reqs), len(got)), fam)
+    elif got != exp:
+        i = next((i for i, (g, e) in enumerate(zip(got, exp)) if g != e), min(len(got), len(exp)))
+        ctx.violation(case, "request %d of %d on one connection arrived as %r, sent %r (dispatched %d in all)"
+                      % (i + 1, len(reqs), got[i] if i < len(got) else None, exp[i] if i < len(exp) else None, len(got)))
+    elif nresp is not None and nresp != len(reqs):
+        ctx.violation(case, "%d v3 requests on one connection, %d responses written" % (len(reqs), nresp))
 
 
 def classify_resp(version, ok, body, stream, fail):
@@ -947,6 +1367,123 @@ def gen_encoders(ctx, b, rng):
     b.add(c, "enc.req %s %s" % (hlist(a1), "~" if b1 is None else hexb(b1)), hexb(wire))
 
 
+def gen_v3req(ctx, b, rng, exhaustive_small):
+    """server-side v3 messages for the real ConventionalRequestHandler: conventional requests
+    (args; 0-3 body parts; sometimes cut short by oE + error structure), and ~20 % other part
+    sequences (status byte first, two structures, parts after the error ...)"""
+    from fastbencode import bencode
+    w = rng.random() < 0.7
+    hdr = bencode({gbytes(rng, 1, 4): gbytes(rng, 0, 5) for _ in range(rng.randint(0, 2))})
+    parts = []
+    wellformed = rng.random() < 0.8
+    if wellformed:
+        parts.append(("s", gen_struct(rng)))
+        if w:
+            for _ in range(rng.choice([0, 0, 1, 1, 2, 3])):
+                parts.append(("b", gbody(ctx, rng) if rng.random() < 0.3 else gbytes(rng, 0, 9)))
+            if rng.random() < 0.3:
+                parts += [("o", ord("E")), ("s", gen_struct(rng))]
+    else:
+        for _ in range(rng.randint(0, 5)):
+            k = rng.choice("obsss")
+            parts.append((k, rng.choice(b"SSEEC") if k == "o" else gen_struct(rng) if k == "s" else gbytes(rng, 0, 9)))
+    rest = grest(rng)
+    data = be32(len(hdr)) + hdr
+    for k, v in parts:
+        data += b"o" + bytes([v]) if k == "o" else k.encode() + be32(len(v)) + v
+    data += b"e" + rest
+    if exhaustive_small and len(data) <= 50:
+        for segs in two_splits(data):
+            do_v3req(ctx, b, w, hdr, parts, rest, segs, wellformed)
+    do_v3req(ctx, b, w, hdr, parts, rest, cut(rng, data), wellformed)
+
+
+def gen_offsets(ctx, b, rng):
+    p = _proto()
+    offs = [(rng.choice([0, 1, 9, 10, 99, 4096, 10 ** 9, 2 ** 64, rng.randint(0, 10 ** 6)]),
+             rng.choice([0, 1, 7, 100, 65536, rng.randint(0, 70000)])) for _ in range(rng.choice([0, 1, 1, 2, 3, 5]))]
+    text = p.SmartProtocolBase()._serialise_offsets(offs)
+    do_offsets(ctx, b, text, offs)
+    if rng.random() < 0.3:
+        # blank lines are skipped; everything else malformed is a ValueError
+        how = rng.choice(["blank", "blank", "comma", "nocomma", "junk", "empty-field"])
+        lines = text.split(b"\n") if text else []
+        if how == "blank":
+            lines.insert(rng.randint(0, len(lines)), b"")
+            do_offsets(ctx, b, b"\n".join(lines) + rng.choice([b"", b"\n"]), offs)
+            return
+        if how == "comma":
+            lines.insert(rng.randint(0, len(lines)), b"1,2,3")
+        elif how == "nocomma":
+            lines.insert(rng.randint(0, len(lines)), b"12")
+        elif how == "junk":
+            lines.insert(rng.randint(0, len(lines)), rng.choice([b"x,1", b"1,x", b"1;2", b"0x1,2", b"1,2a"]))
+        else:
+            lines.insert(rng.randint(0, len(lines)), rng.choice([b",1", b"1,", b","]))
+        do_offsets(ctx, b, b"\n".join(lines), None)
+
+
+def gen_v2resp(ctx, b, rng):
+    ok = rng.random() < 0.75
+    args = [rng.choice([b"ok", b"yes", b"x", b"NoSuchFile"])] + gargs(rng, True)
+    shape = rng.choice(["args", "body", "stream", "stream-fail"]) if ok else "args"
+    body, stream, fail = None, None, None
+    if shape == "body":
+        body = gbody(ctx, rng)
+    elif shape in ("stream", "stream-fail"):
+        stream = [gbytes(rng, 0, 9) if rng.random() < 0.9 else gbody(ctx, rng) for _ in range(rng.randint(0, 3))]
+        if shape == "stream-fail":
+            fail = [rng.choice([b"Boom", b"NoSuchFile"])] + gargs(rng, False)
+    bad = rng.choice(["marker", "status"]) if rng.random() < 0.1 else None
+    do_v2resp(ctx, b, rng, ok, args, body, stream, fail, grest(rng), bad)
+
+
+def gen_request(ctx, rng, version):
+    hows = ["call", "body", "readv"] + (["stream"] if version == 3 else [])
+    how = rng.choice(hows)
+    args = [b"C29.n" if how == "call" else b"C29.b"] + gargs(rng, version != 3)
+    if how == "call":
+        body = None
+    elif how == "body":
+        body = gbody(ctx, rng) if rng.random() < 0.5 else gbytes(rng, 0, 12)
+    elif how == "readv":
+        body = [(rng.randint(0, 10 ** 6), rng.randint(0, 70000)) for _ in range(rng.randint(0, 3))]
+    else:
+        body = [gbytes(rng, 0, 9) for _ in range(rng.randint(0, 3))]
+    return (version, how, args, body)
+
+
+def gen_misuse(ctx, rng):
+    """a v3 request the server answers with an error while the client keeps sending: a body / stream
+    for a verb that answered from its args (C29.n), for a verb that raised (C29.x), for an unknown
+    verb; or no body for a verb that takes one.  v3 messages are self-delimiting, so the connection
+    must stay usable"""
+    verb = rng.choice([b"C29.n", b"C29.n", b"C29.x", b"C29.x", b"C29.unknown", b"C29.b"])
+    args = [verb] + gargs(rng, False)
+    if verb == b"C29.b":
+        return (3, "call", args, None)
+    how = rng.choice(["body", "stream", "readv", "call"] if verb != b"C29.n" else ["body", "stream", "readv"])
+    if how == "call":
+        body = None
+    elif how == "body":
+        body = gbytes(rng, 0, 12)
+    elif how == "readv":
+        body = [(rng.randint(0, 10 ** 6), rng.randint(0, 70000)) for _ in range(rng.randint(1, 3))]
+    else:
+        body = [gbytes(rng, 0, 9) for _ in range(rng.randint(1, 3))]
+    return (3, how, args, body)
+
+
+def gen_pipeline(ctx, rng):
+    n = rng.choice([2, 2, 3])
+    v = rng.choice([1, 2, 3, 3])
+    reqs = [gen_request(ctx, rng, v if rng.random() < 0.8 else rng.choice([1, 2, 3])) for _ in range(n)]
+    if rng.random() < 0.4:
+        reqs[rng.randrange(n - 1)] = gen_misuse(ctx, rng)     # never last: something must follow it
+    style = rng.choice(["whole", "two", "bytes", "rand", "rand"])
+    oracle_pipeline(ctx, rng, reqs, style, rng.choice(["socket", "socket", "pipe"]))
+
+
 def gen_e2e(ctx, rng):
     version = rng.choice([1, 2, 3, 3])
     style = rng.choice(["whole", "two", "bytes", "rand", "rand-empty"])
@@ -1020,6 +1557,41 @@ def corpus_cases(ctx, b):
         data += b"e" + rest
         for segs in two_splits(data):
             do_v3(ctx, b, True, hdr, parts, rest, segs)
+    # conventional requests: aborted stream (finding F16 at the handler level: the error reaches
+    # post_body_error_received), body for a verb that answered already, all 2-splits
+    for w, parts, rest, wf in ((True, [("s", bencode([b"v", b"a"])), ("b", b"ab"), ("o", 69), ("s", bencode([b"error"]))], b"", True),
+                               (True, [("s", bencode([b"v"]))], b"bzr", True),
+                               (False, [("s", bencode([b"v"]))], b"\x00", True),
+                               (False, [("s", bencode([b"v"])), ("b", b"x")], b"", False),
+                               (True, [("o", 83), ("s", bencode([b"v"]))], b"", False),
+                               (True, [("s", bencode([b"v"])), ("o", 69), ("b", b"x"), ("s", bencode([b"e"]))], b"", False)):
+        data = be32(len(hdr)) + hdr
+        for k, v in parts:
+            data += b"o" + bytes([v]) if k == "o" else k.encode() + be32(len(v)) + v
+        data += b"e" + rest
+        for segs in two_splits(data):
+            do_v3req(ctx, b, w, hdr, parts, rest, segs, wf)
+    for text, offs in ((b"", []), (b"0,0", [(0, 0)]), (b"1,2\n3,4", [(1, 2), (3, 4)]), (b"\n1,2\n\n", [(1, 2)]),
+                       (b"1,2\n3", None), (b"1,2,3", None), (b",", None)):
+        do_offsets(ctx, b, text, offs)
+    do_v2resp(ctx, b, rng, True, [b"ok"], None, [], [b"Boom", b"x"], b"bzr response 2\n")
+    do_v2resp(ctx, b, rng, True, [b"ok", b""], b"done\n", None, None, b"done\n")
+    do_v2resp(ctx, b, rng, False, [b"NoSuchFile", b"a"], None, None, None, b"")
+    # a v3 request the server rejects half way (body for a verb that answered / raised / is unknown),
+    # then a good one on the same connection
+    for bad in ((3, "body", [b"C29.n", b"a"], b"xyz"), (3, "stream", [b"C29.n"], [b"a", b"bc"]),
+                (3, "body", [b"C29.x"], b"xyz"), (3, "stream", [b"C29.unknown", b"p"], [b"a"]),
+                (3, "call", [b"C29.b", b"q"], None)):
+        reqs = [bad, (3, "body", [b"C29.b", b"a"], b"one"), (3, "call", [b"C29.n"], None)]
+        for style in ("whole", "two", "bytes"):
+            oracle_pipeline(ctx, rng, reqs, style, "socket")
+        oracle_pipeline(ctx, rng, reqs, "rand", "pipe")
+    # back-to-back requests with the boundary inside one read, each protocol version
+    for v in (1, 2, 3):
+        reqs = [(v, "body", [b"C29.b", b"a"], b"one"), (v, "call", [b"C29.n"], None), (v, "body", [b"C29.b"], b"")]
+        for style in ("whole", "two", "bytes"):
+            oracle_pipeline(ctx, rng, reqs, style, "socket")
+        oracle_pipeline(ctx, rng, reqs, "rand", "pipe")
     for style in ("full", "one", "rand"):
         oracle_response(ctx, rng, 3, True, [b"ok"], None, [], [b"Boom", b"x"], style)
         oracle_response(ctx, rng, 3, True, [b"ok"], None, [b"a"], [b"Boom", b"x"], style)
@@ -1034,7 +1606,7 @@ def run(ctx, n=None):
                                              else "with F15 fix (resp_handler_roundtrip_fixed applies)")
     check_consts(ctx, b)
     corpus_cases(ctx, b)
-    n = n or ctx.pick(4000, 25000)
+    n = n or ctx.pick(4000, 18000)
     for i in range(n):
         small = i < ctx.pick(60, 400)
         gen_lp(ctx, b, rng, small)
@@ -1043,6 +1615,11 @@ def run(ctx, n=None):
         gen_req(ctx, b, rng, small)
         gen_encoders(ctx, b, rng)
         gen_e2e(ctx, rng)
+        gen_v3req(ctx, b, rng, small)
+        gen_offsets(ctx, b, rng)
+        gen_v2resp(ctx, b, rng)
+        if i % 2 == 0:
+            gen_pipeline(ctx, rng)
     ctx.diff(b.cases, b.lines, b.outs)
 
 
@@ -1069,6 +1646,25 @@ def replay(ctx, case):
         do_v3(ctx, b, case["marker"], ub(case["hdr"]), parts, ub(case["rest"]), segs, case.get("bad"))
     elif k == "req":
         do_req(ctx, b, case["w"], [unhex(a) for a in case["args"]], ub(case["body"]), ub(case["rest"]), segs, case.get("bad"))
+    elif k == "v3req":
+        parts = [(kk, v if kk == "o" else unhex(v)) for kk, v in case["parts"]]
+        do_v3req(ctx, b, case["w"], ub(case["hdr"]), parts, ub(case["rest"]), segs, case["wellformed"])
+    elif k == "dec.offsets":
+        do_offsets(ctx, b, ub(case["text"]), None if case["offs"] is None else [tuple(o) for o in case["offs"]])
+    elif k in ("v2resp", "enc.v2resp"):
+        do_v2resp(ctx, b, rng, case["ok"], [unhex(a) for a in case["args"]], ub(case["body"]),
+                  None if case["stream"] is None else [unhex(c) for c in case["stream"]],
+                  None if case["fail"] is None else [unhex(a) for a in case["fail"]], ub(case["rest"]), case.get("bad"))
+    elif k == "e2e-pipeline":
+        reqs = []
+        for r in case["reqs"]:
+            body = r["body"]
+            if isinstance(body, list):
+                body = [tuple(x) if isinstance(x, list) else unhex(x) for x in body]
+            else:
+                body = ub(body)
+            reqs.append((r["version"], r["how"], [unhex(a) for a in r["args"]], body))
+        oracle_pipeline(ctx, rng, reqs, case["style"], case["medium"])
     elif k == "e2e-resp":
         oracle_response(ctx, rng, case["version"], case["ok"], [unhex(a) for a in case["args"]], ub(case["body"]),
                         None if case["stream"] is None else [unhex(c) for c in case["stream"]],
